@@ -7,6 +7,7 @@ package main
 import (
 	"bytes"
 	"context"
+	"encoding/json"
 	"fmt"
 	"net/http"
 	"net/http/httptest"
@@ -196,6 +197,133 @@ func c05Stale(in c05StaleIn) (out c05StaleOut) {
 	return
 }
 
+// c05FastAnswer: the addressed session answers a server-issued roots/list at once - its POST is served while the goroutine that
+// issued the request is still inside the Flush that delivered the frame (it has not begun to wait for the answer yet).  The
+// answer is the one posted by the session the request was sent to: it is accepted.
+type holdFlushRW struct {
+	http.ResponseWriter
+	saw     bool
+	flushed chan struct{}
+	hold    chan struct{}
+}
+
+func (w *holdFlushRW) Write(p []byte) (int, error) {
+	if bytes.Contains(p, []byte(`"roots/list"`)) {
+		w.saw = true
+	}
+	return w.ResponseWriter.Write(p)
+}
+
+func (w *holdFlushRW) Flush() {
+	if f, ok := w.ResponseWriter.(http.Flusher); ok {
+		f.Flush()
+	}
+	if w.saw {
+		w.saw = false
+		select {
+		case w.flushed <- struct{}{}:
+		default:
+		}
+		<-w.hold
+	}
+}
+
+func c05FastAnswer(id string) (out c05StaleOut) {
+	out.ID = id
+	srv := mcp.NewServer("verif", "1.0", mcp.WithServerPath("/mcp"), mcp.WithServerLogger(silentLogger{}))
+	h := srv.Handler()
+	flushed, hold := make(chan struct{}, 1), make(chan struct{})
+	ts := httptest.NewServer(http.HandlerFunc(func(w http.ResponseWriter, r *http.Request) {
+		if r.Method == http.MethodGet {
+			w = &holdFlushRW{ResponseWriter: w, flushed: flushed, hold: hold}
+		}
+		h.ServeHTTP(w, r)
+	}))
+	url := ts.URL + "/mcp"
+	released := false
+	var stream *peer.Stream
+	defer func() {
+		if !released {
+			close(hold)
+		}
+		if stream != nil {
+			stream.Close()
+		}
+		closeClientConns(ts)
+		closeTS(ts)
+	}()
+	ctx := context.Background()
+	sid, err := peer.Handshake(ctx, url, nil)
+	if err != nil || sid == "" {
+		out.Broken = fmt.Sprintf("handshake: %v", err)
+		return
+	}
+	stream, err = peer.OpenSSE(ctx, http.MethodGet, url, map[string]string{"Accept": "text/event-stream", "Mcp-Session-Id": sid}, nil)
+	if err != nil || stream.Status != 200 {
+		out.Broken = fmt.Sprintf("GET: %v", err)
+		return
+	}
+	for dl := time.Now().Add(time.Second); mcp.VerifGetStreamCount(srv) < 1 && time.Now().Before(dl); time.Sleep(2 * time.Millisecond) {
+	}
+	type lres struct {
+		n   int
+		err error
+	}
+	done := make(chan lres, 1)
+	go func() {
+		lctx, cancel := context.WithTimeout(context.Background(), 2500*time.Millisecond)
+		defer cancel()
+		r, err := srv.SendRequest(lctx, sid, &mcp.JSONRPCRequest{JSONRPC: "2.0", ID: "fast-1", Request: mcp.Request{Method: "roots/list"}})
+		n := 0
+		if r != nil && strings.Contains(string(*r), "file:///fast") {
+			n = 1
+		}
+		done <- lres{n, err}
+	}()
+	select {
+	case <-flushed:
+	case <-time.After(2 * time.Second):
+		out.Unreal = "the roots/list frame was not flushed"
+		return
+	}
+	// the peer has the frame: it answers before the issuing goroutine moves on
+	var reqID string
+	stream.WaitFor(2*time.Second, func(raw []byte, eof bool) bool {
+		evs, _ := peer.ParseSSE(raw)
+		for _, e := range evs {
+			var m struct {
+				ID     json.RawMessage `json:"id"`
+				Method string          `json:"method"`
+			}
+			if json.Unmarshal([]byte(e.Data), &m) == nil && m.Method == "roots/list" {
+				reqID = string(m.ID)
+				return true
+			}
+		}
+		return false
+	})
+	if reqID == "" {
+		out.Unreal = "the peer did not see the roots/list frame"
+		return
+	}
+	body := []byte(fmt.Sprintf(`{"jsonrpc":"2.0","id":%s,"result":{"roots":[{"uri":"file:///fast","name":"fast"}]}}`, reqID))
+	r := peer.PostJSON(ctx, url, map[string]string{"Mcp-Session-Id": sid}, body, false)
+	out.NoticeMs = r.Status
+	released = true
+	close(hold)
+	select {
+	case l := <-done:
+		out.BOK = l.err == nil && l.n == 1
+		out.BCount = l.n
+		if l.err != nil {
+			out.BErr = l.err.Error()
+		}
+	case <-time.After(5 * time.Second):
+		out.BHung = true
+	}
+	return
+}
+
 func sendFiltered(srv *mcp.Server, params map[string]interface{}, sid string) (int, int, error) {
 	return srv.SendFilteredNotification("notifications/message", params, func(id string) bool { return id == sid })
 }
@@ -210,6 +338,10 @@ func init() {
 			Results []c05StaleOut `json:"results"`
 		}{}
 		for _, it := range in.Items {
+			if it.How == "fastanswer" {
+				out.Results = append(out.Results, c05FastAnswer(it.ID))
+				continue
+			}
 			out.Results = append(out.Results, c05Stale(it))
 		}
 		writeOutput(out)
